@@ -45,6 +45,7 @@ def pCdsOps (w : String) : Option (List CdsOp) :=
     | 'n' => some CdsOp.numCodons
     | 'e' => some CdsOp.extract
     | 'v' => some CdsOp.validStop
+    | 'N' => some CdsOp.totalCodons
     | _ => none
 
 def pAnsTok (t : String) : Option Ans :=
@@ -59,7 +60,7 @@ def pAnsTok (t : String) : Option Ans :=
 /-- forget the Python type of a sequence answer / replace an internal error by what the fresh object says -/
 def eraseType (letters : List Char) : CdsOp → Ans → Ans
   | _, .str l => .seqObj l
-  | .validStop, .internalError => freshAns letters .validStop
+  | .validStop, .internalError => freshAns letters 0 0 .validStop
   | _, a => a
 
 def pQDict : P QDict := pList (do let k ← pNat; let vs ← pList pNat; pure (k, vs))
@@ -113,16 +114,18 @@ def ops : List (String × Op) := [
         pure (verdict (decide (cold = warm) && okSameAnswers (cold.map fun a => ((), a))))
       | _ => do let _ ← pRestToks; pure "fail raised"),
   ("cdshist", do
-      let letters ← tok; let w ← tok; pSkipToArrow
+      let lt ← tok; let nChunk ← pNat; let nTotal ← pNat; let w ← tok; pSkipToArrow
+      let letters := if lt = "_" then "" else lt
       match (← tok), pCdsOps w with
       | "ok", some hist => do
         let toks ← pRestToks
         match toks.mapM pAnsTok with
         | none => pure "fail answer?"
         | some answers =>
-          if okCdsHist letters.toList hist answers then pure "pass"
+          if okCdsHist letters.toList nChunk nTotal hist answers then pure "pass"
           else if answers.length == hist.length &&
-              okCdsHist letters.toList hist ((hist.zip answers).map fun p => eraseType letters.toList p.1 p.2) then
+              okCdsHist letters.toList nChunk nTotal hist
+                ((hist.zip answers).map fun p => eraseType letters.toList p.1 p.2) then
             pure "fail type-only"       -- the VALUES are history independent, a Python type / internal error is not
           else pure "fail value"
       | _, _ => do let _ ← pRestToks; pure "fail raised"),
